@@ -6,6 +6,7 @@ import EaselModel.Stats.Rootfinder
 import EaselModel.Stats.MinTrace
 import EaselModel.Stats.HistExpect
 import EaselModel.Stats.FitGev
+import EaselModel.Stats.FitSxpBinned
 /-! Line-protocol driver for the C11 model (histogram + maximum-likelihood fits) over `Float`. -/
 open EaselModel EaselModel.Proto EaselModel.Stats
 
@@ -270,7 +271,7 @@ def stepH (s : S) (ws : List String) (h : Hist Float) : S × String :=
   | "hexpfit" :: _ => (s, fitOut (expFitCompleteBinned h))
   | "hgamfit" :: _ => (s, fitOut (gamFitCompleteBinned h))
   | "hweifit" :: _ => (s, fitOut (weiFitCompleteBinned h s.e.isTailfit))
-  | "hsxpfit" :: _ => (s, "unmodelled")
+  | "hsxpfit" :: _ => (s, fitOut (sxpFitCompleteBinned h s.e.isTailfit))
   | _ => (s, "bad-op")
 
 def step (s : S) (line : String) : S × String :=
@@ -293,6 +294,12 @@ def step (s : S) (line : String) : S × String :=
   | "data" :: _ =>
     let xs := parseBitsList ((arg? ws "xs").getD "-")
     ({ s with xs := xs }, s!"ok n={xs.size}")
+  | "gevobj" :: _ =>
+    let p := parseBitsList ((arg? ws "p").getD "-")
+    if p.size != 3 then (s, "bad-op") else
+    let cens : Option (Int × Float) := if (argInt? ws "cens").getD 0 != 0 then some ((argInt? ws "z").getD 0, (argF ws "a").getD 0.0) else none
+    let g := gevGrad s.xs cens p
+    (s, s!"ok f={fb (gevFunc s.xs cens p)} g0={fb (g.getD 0 0.0)} g1={fb (g.getD 1 0.0)} g2={fb (g.getD 2 0.0)}")
   | "fitcount" :: _ =>
     let c := parseBitsList ((arg? ws "cs").getD "-")
     if c.size < 1 then (s, "bad-op") else
